@@ -31,7 +31,7 @@ vars == <<l, nbad, hits>>
 
 HitNames == {"Dist_man", "Dist_euc", "Dist_mink", "Dist_ham", "Dist_hami", "F32", "Scaled", "EqualArgs",
              "TriangleTight", "Mink1", "Mink2", "Unfit", "Mismatch",
-             "Maha_cov", "Maha_data", "Maha_identity", "Maha_unconstrained", "Maha_skipped", "Maha_f32",
+             "Maha_cov", "Maha_data", "Maha_identity", "Maha_unconstrained", "Maha_skipped", "Maha_f32", "Maha_order45", "LongVector",
              "MahaMismatch", "Expect", "ExpectPanic", "ModelMismatch"}
 
 HitAll(S) == [h \in HitNames |-> hits[h] + (IF h \in S THEN 1 ELSE 0)]
@@ -60,6 +60,7 @@ DistHits(e) ==
     \cup (IF e.e # 0 THEN {"Scaled"} ELSE {})
     \cup (IF e.x = e.y THEN {"EqualArgs"} ELSE {})
     \cup (IF e.status = "ok" /\ TriangleTight(e.xy, e.yz, e.xz) THEN {"TriangleTight"} ELSE {})
+    \cup (IF Len(e.x) > 64 THEN {"LongVector"} ELSE {})
     \cup (IF e.kind = "mink" /\ e.p = 1 THEN {"Mink1"} ELSE {})
     \cup (IF e.kind = "mink" /\ e.p = 2 THEN {"Mink2"} ELSE {})
 
@@ -69,14 +70,16 @@ Judge(e, c, hs) ==
     /\ IF c = "" THEN nbad' = nbad ELSE PrintT(<<"BAD", l, e.run, e.ev, c>>) /\ nbad' = nbad + 1
     /\ hits' = HitAll(hs)
 
-MahaHits(e, c) ==
+MahaHits(e, c, allSkipped) ==
     (IF c = "unconstrained" THEN {"Maha_unconstrained"}
      ELSE {"Maha_" \o e.mode}
           \cup (IF e.mode = "cov" /\ IsIdentity(e.mat) THEN {"Maha_identity"} ELSE {})
           \cup (IF e.prec < 50 THEN {"Maha_f32"} ELSE {})
-          \cup (IF MahaAllSkipped(e) THEN {"Maha_skipped"} ELSE {}))
+          \cup (IF Len(e.x) >= 4 THEN {"Maha_order45"} ELSE {})
+          \cup (IF allSkipped THEN {"Maha_skipped"} ELSE {}))
 
-JudgeMaha(e, c) == Judge(e, IF c = "unconstrained" THEN "" ELSE c, MahaHits(e, c))
+(* j = MahaJudge(e) = <<clause, all closed forms skipped>>, evaluated once *)
+JudgeMaha(e, j) == Judge(e, IF j[1] = "unconstrained" THEN "" ELSE j[1], MahaHits(e, j[1], j[2]))
 
 Step ==
     LET e == Rec[l] IN
@@ -86,7 +89,7 @@ Step ==
               IF DistFits(e) THEN Judge(e, DistFirstFail(e), DistHits(e))
               ELSE Judge(e, "", {"Unfit"})
          [] e.ev = "Mismatch" -> Judge(e, IF MismatchOK(e) THEN "" ELSE "RejectsDifferentLengths", {"Mismatch"})
-         [] e.ev = "Maha" -> JudgeMaha(e, MahaFirstFail(e))
+         [] e.ev = "Maha" -> JudgeMaha(e, MahaJudge(e))
          [] e.ev = "MahaMismatch" ->
               Judge(e, IF MahaMismatchOK(e) THEN "" ELSE "RejectsLengthNotMatchingCovariance", {"MahaMismatch"})
          [] e.ev = "Expect" ->
